@@ -109,6 +109,9 @@ class SourceDataWrapper(ABC):
             number_type = known_dtypes.get(dtype_name, dset_row0.dtype)
             ReprCodeConverter.validate_numpy_dtype(number_type)
 
+            # loaded chunks are kept in native byte order, whatever the byte order of the source data
+            number_type = np.dtype(number_type).newbyteorder('=')
+
             # determine the dtype of the data set (2- or 3-tuple)
             dt = (dtype_name, number_type)
             if dset_row0.ndim > 1:
